@@ -269,9 +269,48 @@ def _wb(events):
     return not st
 
 
+def _failed_import_leaves_nothing(ctx, pk):
+    """one ConfigLoader object: a load whose first %import fails, then a load that imports a valid component; afterwards
+    the application's schema must still reject that component's section type when it is used WITHOUT %import, exactly as
+    a fresh copy of the schema does"""
+    import ZConfig
+    from ZConfig.loader import ConfigLoader
+    comp2 = pk.add_component([F.TypeD("lateimp", [F.KeyD("k", "string")], implements="lab")])
+    xml = "<schema><abstracttype name='lab'/><multisection type='lab' name='*' attribute='items'/><key name='plain'/></schema>"
+
+    def outcome(schema, text, loader=None):
+        try:
+            if loader is not None:
+                loader.loadFile(io.StringIO(text), "file:///zcv/c19.conf")
+            else:
+                ZConfig.loadConfigFile(schema, io.StringIO(text), "file:///zcv/c19.conf")
+            return "ok"
+        except ZConfig.ConfigurationError:
+            return "cfg"
+        except Exception as e:
+            return "exc:" + type(e).__name__
+    for first in ("%import zcv_no_such_pkg_c19\n", "%import a..b\n", "<nosuch/>\n%import zcv_no_such_pkg_c19\n", "plain x\n"):
+        schema = ZConfig.loadSchemaFile(io.StringIO(xml))
+        names0 = list(schema.gettypenames())
+        ld = ConfigLoader(schema)
+        seq = [first, "%%import %s\n<lateimp/>\n" % comp2, "plain y\n"]
+        outs = [outcome(schema, t, ld) for t in seq]
+        probe = "<lateimp/>\n"
+        used = outcome(schema, probe)
+        fresh = outcome(ZConfig.loadSchemaFile(io.StringIO(xml)), probe)
+        ctx.evaluations += 1
+        ctx.nontriv(("failed-import", first))
+        if used != fresh or list(schema.gettypenames()) != names0:
+            ctx.violate("after the loads %r on one loader (outcomes %r) the schema %s; '<lateimp/>' without %%import gives %s on it and %s on a fresh copy"
+                        % (seq, outs, "gained types %r" % [n for n in schema.gettypenames() if n not in names0], used, fresh),
+                        {"schema_xml": xml, "loads": seq, "outcomes": outs, "probe": probe, "used": used, "fresh": fresh},
+                        signature="C19:state-left-behind:import")
+
+
 def _schema_graphs(ctx, tr, pk, base):
     """schema extends / import graphs and %import, with a malformed or missing member; direct oracle only"""
     import ZConfig
+    _failed_import_leaves_nothing(ctx, pk)
     comp = pk.add_component([F.TypeD("cimp", [F.KeyD("k", "string")])])
     shapes = []
     for bad in (None, "base", "mid", "imp", "missing"):
